@@ -8,6 +8,7 @@ from .sim.core import UP, UV, BE, BS, AT, ED
 AUTH_FAULTS = [
     "A.type-create", "A.type-other", "A.chal-other", "A.chal-prefix", "A.chal-extended",
     "A.origin-other-host", "A.origin-case", "A.origin-trailing-slash", "A.origin-scheme",
+    "A.origin-proper-prefix", "A.origin-infix", "A.origin-empty",
     "A.rpid-other", "A.rpid-uppercase", "A.up-clear", "A.uv-clear-required",
     "A.id-other-credential", "A.id-padded", "A.id-std-alphabet", "A.cred-type",
     "A.sig-other-key", "A.sig-authdata-only", "A.sig-unhashed-cdj", "A.sig-other-hash",
@@ -79,6 +80,12 @@ def build_assertion(cred, *, rp_id="example.com", challenge=b"\x01" * 32, origin
         cd_origin = cd_origin + "/"
     if "A.origin-scheme" in faults:
         cd_origin = cd_origin.replace("https://", "http://")
+    if "A.origin-proper-prefix" in faults:
+        cd_origin = origin[:-1]
+    if "A.origin-infix" in faults:
+        cd_origin = origin[8:-4]
+    if "A.origin-empty" in faults:
+        cd_origin = ""
     if "A.rpid-other" in faults:
         ad_rp = "other.example"
     if "A.rpid-uppercase" in faults:
